@@ -38,7 +38,9 @@ type RelayScript struct {
 	Scopes []string `json:"scopes,omitempty"` // "type:resource:action"
 	Nested bool     `json:"nested,omitempty"` // the view is built as a view of a view
 	Listed []string `json:"listed,omitempty"` // backend's repository listing
-	Again  int      `json:"again,omitempty"`  // the same call is made this many more times with the same context
+	O0     int64    `json:"o0,omitempty"`     // GetBlobRange offsets (0,0 stands for 1,3)
+	O1     int64    `json:"o1,omitempty"`
+	Again  int      `json:"again,omitempty"` // the same call is made this many more times with the same context
 }
 
 var methods = []string{"GetBlob", "GetBlobRange", "GetManifest", "GetTag", "ResolveBlob", "ResolveManifest", "ResolveTag",
@@ -98,7 +100,11 @@ func runRelay(s RelayScript, v *vt.V) {
 		case "GetBlob":
 			closeR(sub.GetBlob(ctx, s.Repo, dg))
 		case "GetBlobRange":
-			closeR(sub.GetBlobRange(ctx, s.Repo, dg, 1, 3))
+			o0, o1 := s.O0, s.O1
+			if o0 == 0 && o1 == 0 {
+				o0, o1 = 1, 3
+			}
+			closeR(sub.GetBlobRange(ctx, s.Repo, dg, o0, o1))
 		case "GetManifest":
 			closeR(sub.GetManifest(ctx, s.Repo, dg))
 		case "GetTag":
@@ -151,7 +157,9 @@ func runRelay(s RelayScript, v *vt.V) {
 	if hostile || s.Start != "" || strings.HasPrefix(s.Repo, s.Prefix) {
 		v.NonTrivial(fmt.Sprintf("%s|%s|%q|%q|%q", s.Prefix, s.Method, s.Repo, s.From, s.Start))
 	}
-	if len(calls) != 1 || calls[0].Method != s.Method {
+	// (reading the whole blob through the range call may be passed on as a plain GetBlob)
+	wholeBlob := s.Method == "GetBlobRange" && s.O0 == 0 && s.O1 < 0 && len(calls) == 1 && calls[0].Method == "GetBlob"
+	if len(calls) != 1 || calls[0].Method != s.Method && !wholeBlob {
 		v.Failf("wrong-call", "%s: the underlying registry saw %v", desc, calls)
 		return
 	}
@@ -189,6 +197,16 @@ func runRelay(s RelayScript, v *vt.V) {
 	}
 	if s.Method == "MountBlob" && !check("source repository", c.FromRepo, s.From) {
 		return
+	}
+	if s.Method == "GetBlobRange" {
+		o0, o1 := s.O0, s.O1
+		if o0 == 0 && o1 == 0 {
+			o0, o1 = 1, 3
+		}
+		if !wholeBlob && (c.Offset0 != o0 || c.Offset1 != o1) {
+			v.Failf("wrong-range", "%s: range %d..%d arrived as %d..%d", desc, o0, o1, c.Offset0, c.Offset1)
+			return
+		}
 	}
 	if s.Method == "Tags" && c.StartAfter != s.Start {
 		v.Failf("wrong-start", "%s: tags start point %q, want %q", desc, c.StartAfter, s.Start)
@@ -304,6 +322,10 @@ func genRelay(t *rapid.T) RelayScript {
 	}
 	s.Nested = rapid.IntRange(0, 3).Draw(t, "nested") == 0
 	s.Again = rapid.SampledFrom([]int{0, 0, 1, 2}).Draw(t, "again")
+	if s.Method == "GetBlobRange" {
+		r := rapid.SampledFrom([][2]int64{{0, 0}, {0, -1}, {0, -5}, {0, 5}, {2, -1}, {0, 1}}).Draw(t, "range")
+		s.O0, s.O1 = r[0], r[1]
+	}
 	if s.Method == "Repositories" {
 		p := s.Prefix
 		pool := []string{p, p + "/a", p + "/a/b", p + "/z", p + "ey/x", p + "-tools", p + ".d/x", "other", "a", p + "0", "zz/" + p + "/a"}
@@ -317,7 +339,7 @@ func genRelay(t *rapid.T) RelayScript {
 var propRelay = &vt.Prop[RelayScript]{
 	ID:   "C13",
 	Name: "SubRelay",
-	Rule: "Sub(recorder, prefix) with prefixes of 1-3 elements (incl. routing words), a quarter of them built as a view of a view; each of the 18 methods; caller repository names from the valid grammar and from hostile generators (empty, '.', '..', '../other', 'x/../../other', leading/trailing/double slashes, upper case, NUL, UTF-8, names equal to or starting with the prefix); 0-3 context scopes (repository pull/push/unknown action, registry:catalog:*, other types, empty repository, opaque, repositories whose own name equals or starts with the prefix, the unlimited scope); oracle = exactly one underlying call; a well-formed name n arrives as prefix/n; whatever arrives for a malformed name is empty or literally below prefix/ and does not resolve (dot segments) outside it; the context scope at the underlying registry equals the caller's with repository resources prefixed and nothing else changed; Repositories shows exactly the stripped names under prefix/; half of the calls are then repeated once or twice with the same context: the same call with the same scope reaches the underlying registry each time and the scope value in the caller's context is member for member what it was; non-trivial = hostile name, start point, or name sharing the prefix text; distinct = (prefix, method, names, start)",
+	Rule: "Sub(recorder, prefix) with prefixes of 1-3 elements (incl. routing words), a quarter of them built as a view of a view; each of the 18 methods (GetBlobRange with whole-blob, open-ended and bounded ranges); caller repository names from the valid grammar and from hostile generators (empty, '.', '..', '../other', 'x/../../other', leading/trailing/double slashes, upper case, NUL, UTF-8, names equal to or starting with the prefix); 0-3 context scopes (repository pull/push/unknown action, registry:catalog:*, other types, empty repository, opaque, repositories whose own name equals or starts with the prefix, the unlimited scope); oracle = exactly one underlying call; a well-formed name n arrives as prefix/n; whatever arrives for a malformed name is empty or literally below prefix/ and does not resolve (dot segments) outside it; the context scope at the underlying registry equals the caller's with repository resources prefixed and nothing else changed; Repositories shows exactly the stripped names under prefix/; half of the calls are then repeated once or twice with the same context: the same call with the same scope reaches the underlying registry each time and the scope value in the caller's context is member for member what it was; non-trivial = hostile name, start point, or name sharing the prefix text; distinct = (prefix, method, names, start)",
 	Gen:  genRelay,
 	Run:  runRelay,
 }
